@@ -6,7 +6,7 @@ from gencheck import *
 
 def run(tier):
     C = Check('C19', tier)
-    C.prove('Properties/C19.v', bridges={'Model/Recover.v': []})
+    C.prove('Properties/C19.v', bridges={'Model/Recover.v': [], 'Properties/C19R.v': []})
     C.cov['tie']['generated classes'] = ('correspondence-only (CPython attribute protocol is the oracle): every generated class incl. case-data classes is poked through its whole '
                                          'public interface; serializations before/after must be identical; Model/ObjModel.v is the object/heap model the theorems are about')
     quick = tier == 'quick'
@@ -42,6 +42,8 @@ def run(tier):
         entries.append(dict(name=t['name'], tree=t['tree'], jobs=jobs, want_sources=True))
     run_entries(C, runner, entries)
     recover_stream(C, entries, 'c19')
+    render_stream(C, entries, 'c19')
+    C.cov['tie']['generated constructors (semantics)'] = ("way 1 for generated code: tools/py2stmt.py (IParser) parses every generated __init__ and the read-only properties from the SOURCE TEXT (generic, fail-closed) into the term language of Model/RenderInit.v; Model/RenderCheckI.v decides per tree that they equal render_init / render_getters (elab tree); Properties/C19R.v proves that running the constructor gives the slots `ctor_slots`, the object `init_model` (so C03's program theorem holds with the parsed constructors in place of init_model) and, on the heap model of Model/ObjModel.v, a frozen instance whose argument slots are those of `construct`")
     C.cov['tie']['generated classes (structure)'] = ('translation validation: tools/gen2instr.py recovers the instruction lists of every generated serialize / deserialize / __init__ from the SOURCE TEXT (fail-closed) and Model/Recover.v compares them with elab of the same tree (vm_compute): the theorems about the elaborated instruction lists apply to the code as emitted, for all objects and bytes')
     n = nd = 0
     nde = {}
